@@ -148,12 +148,12 @@ Qed.
 (** *** the bridge *)
 Theorem agree_implies_property_q c : qdom c = true -> run_case c = true -> prop_case c = true.
 Proof.
-  destruct c as [| | | | |cx pre op post sugg| |]; try discriminate.
+  destruct c as [| | | | |cx pre op post sugg| | |]; try discriminate.
   cbn [qdom run_case prop_case]. intros D Rn.
   apply andb_true_iff in D. destruct D as (Cp & D). apply chain_canonicalb in Cp.
   apply andb_true_iff in Rn. destruct Rn as (R1 & R2). apply outcome_eq_P in R1.
   apply (list_eqb_spec sr_eqb sr_eqb_eq) in R2.
-  destruct op as [t|s e sap orc iro|rg p|mh|ph pr]; try discriminate D.
+  destruct op as [t|s e sap orc iro|rg p|mh|ph pr|rt rf]; try discriminate D.
   - (* update_chain_tip *)
     apply andb_true_iff in D. destruct D as (D & T). apply andb_true_iff in D. destruct D as (K & SB).
     apply ctx_okb_P in K. pose proof (scanned_belowb_P cx pre Cp SB) as INV.
